@@ -183,7 +183,7 @@ class Ids(C13Entry):
             cs.append({"pts": pts, "how": how, "family": "integer-dtype"})
         # long arrays: 2^k + 1 points (fewer depths, so that the case file stays small)
         if round == 0:
-            for n, md in ((ctx.n(2 ** 10 + 1, 2 ** 12 + 1), 4), (ctx.n(2 ** 12 + 1, 2 ** 15 + 1), 1)):
+            for n, md in ((ctx.n(2 ** 10 + 1, 2 ** 12 + 1), 4), (ctx.n(2 ** 12 + 1, 2 ** 14 + 1), 1)):
                 pts = [list(g.position(r, fams[j % len(fams)])) for j in range(n)]
                 cs.append({"pts": pts, "how": r.choice(["f8", "strided", "be"]), "family": "long-array", "maxdepth": md})
         return cs
